@@ -98,7 +98,7 @@ def oracle(ctx, seeds, scale):
             d = d.replace('\\' + nm + '{', '\\' + nm + rg.choice(seps) + '{').replace('\\' + nm + '[', '\\' + nm + rg.choice(seps) + '[')
         strs.append(d)
     strs += gen.padded_env_docs()
-    strs += gen.signature_probe_docs() + gen.escape_docs() + gen.codepoint_docs(rg, False, 500) + [d for d, _ in gen.name_neighbour_docs()]
+    strs += gen.definition_docs() + gen.signature_probe_docs() + gen.escape_docs() + gen.codepoint_docs(rg, False, 500) + [d for d, _ in gen.name_neighbour_docs()]
     docs = gen.corpus()
     strs += docs
     for d in docs[:40]:
